@@ -20,6 +20,7 @@ from ..astutil import call_name, calls, dotted, names_in, param_names, stmts, wa
 from ..cfg import CFG
 from ..core import AnalysisError, Mutant
 from ..exprnorm import canon, check_spec, same_expr, show, spec, summarize
+from ..exprnorm import has_code
 
 EXPLANATION = (
     "Change-mask term extraction, wrapper forwarding shape, call-graph cycle detection over "
@@ -182,7 +183,7 @@ def run(ctx):
     ctx.floor("wrappers", n_wr, 12)
     gr = res.func("get_residues")
     ctx.ob("R2.names", RES, "get_residues", ast.unparse(gr.body[-1]),
-           "array.res_id[starts]" in ast.unparse(gr) and "array.res_name[starts]" in ast.unparse(gr)
+           has_code(gr, "array.res_id[starts]") and has_code(gr, "array.res_name[starts]")
            and any(call_name(c) == "get_residue_starts" and not c.keywords for c in calls(gr)),
            "ids and names are taken at the residue starts (without stop)", gr.lineno, nontrivial=False)
 
@@ -298,7 +299,7 @@ def run(ctx):
     t = ast.unparse(gm)
     wl = [st for st in ast.walk(gm) if isinstance(st, ast.While)]
     ctx.ob("R3.component-loop", MOL, "get_molecule_indices", "while not visited_mask.all(): root = np.argmin(visited_mask)",
-           "while not visited_mask.all()" in t and "np.argmin(visited_mask)" in t and "visited_mask[connected] = True" in t
+           "while not visited_mask.all()" in t and has_code(gm, "np.argmin(visited_mask)") and has_code(gm, "visited_mask[connected] = True")
            and len(wl) == 1 and not wl[0].orelse and not any(isinstance(x, (ast.Break, ast.Return)) for x in ast.walk(wl[0])),
            "components are collected until every atom is visited", gm.lineno, nontrivial=False)
 
